@@ -215,7 +215,16 @@ func c12Make(r *rand.Rand) c12Hist {
 		}
 	}
 	date := cal.FromYMD(2020, 1, 1) + cal.Day(r.Intn(400))
-	for range h.Days {
+	// one history in eight jumps some centuries ahead in its middle (dates beyond 2262-04-11)
+	jumpAt := -1
+	if len(h.Days) >= 2 && r.Intn(8) == 0 {
+		jumpAt = 1 + r.Intn(len(h.Days)-1)
+	}
+	for di := range h.Days {
+		if di == jumpAt {
+			date += []cal.Day{102269, 213633, 1000000}[r.Intn(3)]
+			h.Shape += "+far"
+		}
 		h.Dates = append(h.Dates, date)
 		date += cal.Day(1 + r.Intn(40))
 	}
